@@ -8,6 +8,7 @@ import ALV.Props.C10
 import ALV.Props.C11
 import ALV.Props.C12
 import ALV.Props.C14
+import ALV.Props.C15
 import ALV.Props.C16
 import ALV.Props.C18
 import ALV.Props.C20
